@@ -234,6 +234,33 @@ int main(void)
 			result(ok ? "ok" : "refused", ok ? "0" : "false");
 			free(ptxt); free(vtxt);
 		}
+		else if (!strcmp(op, "setl") && drv_nw == 7) {
+			/* path text = <prefix> <n> x 'x' <suffix> (elements around the identifier limit of 65535 bytes) */
+			size_t slen = 0, n = 0;
+			char *pre = get_text(drv_w[2], &plen), *suf = get_text(drv_w[4], &slen);
+			vtxt = get_text(drv_w[6], &vlen);
+			if (!pre || !suf || !vtxt || drv_parse_nat(drv_w[3], &n) || n < 65535 || n > 70000 || get_char(drv_w[5], &sep) || sep == 'x') {
+				puts("bad-op"); free(pre); free(suf); free(vtxt); continue;
+			}
+			ptxt = (char *) malloc(plen + n + slen + 1);
+			memcpy(ptxt, pre, plen);
+			memset(ptxt + plen, 'x', n);
+			memcpy(ptxt + plen + n, suf, slen + 1);
+			bool ok = conf->set(ptxt, vtxt, sep);
+			result(ok ? "ok" : "refused", ok ? "0" : "false");
+			free(pre); free(suf); free(ptxt); free(vtxt);
+		}
+		else if (!strcmp(op, "has") && drv_nw == 4) {
+			ptxt = get_text(drv_w[2], &plen);
+			if (!ptxt || get_char(drv_w[3], &sep)) { puts("bad-op"); free(ptxt); continue; }
+			int ex;
+			{
+				path p(ptxt, sep, 0);
+				ex = conf->query(&p, 0, 0);
+			}
+			result(ex < 0 ? "absent" : "present", "-");
+			free(ptxt);
+		}
 		else if (!strcmp(op, "del") && drv_nw == 4) {
 			ptxt = get_text(drv_w[2], &plen);
 			if (!ptxt || get_char(drv_w[3], &sep)) { puts("bad-op"); free(ptxt); continue; }
